@@ -217,7 +217,7 @@ func (b *ASTBuilder) buildModule(tsNode *sitter.Node) *Node {
 // buildFunctionDef builds a function definition node
 func (b *ASTBuilder) buildFunctionDef(tsNode *sitter.Node) *Node {
 	node := NewNode(NodeFunctionDef)
-	node.Location = b.getLocation(tsNode)
+	node.Location = b.getDefinitionLocation(tsNode)
 
 	// Check if it's async
 	if b.hasChildOfType(tsNode, "async") {
@@ -265,7 +265,7 @@ func (b *ASTBuilder) buildFunctionDef(tsNode *sitter.Node) *Node {
 // buildClassDef builds a class definition node
 func (b *ASTBuilder) buildClassDef(tsNode *sitter.Node) *Node {
 	node := NewNode(NodeClassDef)
-	node.Location = b.getLocation(tsNode)
+	node.Location = b.getDefinitionLocation(tsNode)
 
 	// Get class name
 	if nameNode := b.getChildByFieldName(tsNode, "name"); nameNode != nil {
@@ -1758,6 +1758,36 @@ func (b *ASTBuilder) getLocation(tsNode *sitter.Node) Location {
 		EndLine:   int(endPoint.Row) + 1,
 		EndCol:    int(endPoint.Column),
 	}
+}
+
+// getDefinitionLocation is getLocation for a def or class statement: the grammar puts a
+// comment that follows the last statement at body indentation inside the block, but the
+// definition ends with its last statement
+func (b *ASTBuilder) getDefinitionLocation(tsNode *sitter.Node) Location {
+	loc := b.getLocation(tsNode)
+	if last := lastCodeNode(tsNode); last != nil {
+		endPoint := last.EndPoint()
+		loc.EndLine = int(endPoint.Row) + 1
+		loc.EndCol = int(endPoint.Column)
+	}
+	return loc
+}
+
+// lastCodeNode returns the last leaf of a node that is not a comment
+func lastCodeNode(tsNode *sitter.Node) *sitter.Node {
+	for i := int(tsNode.ChildCount()) - 1; i >= 0; i-- {
+		child := tsNode.Child(i)
+		if child == nil || child.Type() == "comment" {
+			continue
+		}
+		if child.ChildCount() == 0 {
+			return child
+		}
+		if last := lastCodeNode(child); last != nil {
+			return last
+		}
+	}
+	return nil
 }
 
 // getNodeText gets the text content of a node
